@@ -140,6 +140,7 @@ pub struct Tables {
     jstructural: Vec<Vec<u8>>,
     splice: Vec<Vec<u8>>,
     rdocs: Vec<Vec<u8>>,
+    long: Vec<Vec<u8>>,
 }
 
 fn mutants_of(len: usize, alpha: usize) -> u64 {
@@ -280,8 +281,32 @@ pub fn tables(tier: Tier) -> &'static Tables {
         let want = tier.pick(150usize, 2000);
         let stride = (zdocs.len() / want).max(1);
         rdocs.extend(zdocs.iter().step_by(stride).take(want).cloned());
+        let mut long: Vec<Vec<u8>> = vec![];
+        for t in long_tokens() {
+            long.push(t.clone());
+            let wrap = |pre: &str, suf: &str| -> Vec<u8> {
+                let mut v = pre.as_bytes().to_vec();
+                v.extend_from_slice(&t);
+                v.extend_from_slice(suf.as_bytes());
+                v
+            };
+            if t.len() <= 400 {
+                long.push(wrap("[1,", ",2]"));
+                long.push(wrap("{a:", " b}"));
+                long.push(wrap("ver:\"3.0\"\na,b\n", ",1\n2,3\n"));
+            }
+        }
+        // long names: tags, columns, dict keys
+        for n in (1..=72usize).chain([127, 128, 129, 255, 256, 257, 1000]) {
+            let name = "a".repeat(n);
+            long.push(format!("{{{name}}}").into_bytes());
+            long.push(format!("{{{name}:1 {name}b:2}}").into_bytes());
+            long.push(format!("ver:\"3.0\" {name}:1\n{name},b {name}\n1,2\n").into_bytes());
+            long.push(format!("ver:\"3.0\"\n{}\n", (0..n).map(|i| format!("c{i}")).collect::<Vec<_>>().join(",")).into_bytes());
+            long.push(format!("ver:\"3.0\"\na\n{}\n", ",".repeat(n)).into_bytes());
+        }
         let jstructural: Vec<Vec<u8>> = super::c10::json_docs().into_iter().map(|d| d.into_bytes()).collect();
-        Tables { zdocs, zmut_prefix: zp, jdocs, jmut_prefix: jp, structural: structural_docs(), jstructural, splice, rdocs }
+        Tables { zdocs, zmut_prefix: zp, jdocs, jmut_prefix: jp, structural: structural_docs(), jstructural, splice, rdocs, long }
     })
 }
 
@@ -328,6 +353,92 @@ const READER_DOCS: &[&str] = &[
     "-INF",
     "NaN",
 ];
+
+/// Long tokens: every token kind of the scalar grammar with a body of every length 1..=72, around
+/// 2^7, 2^8 and a few big ones, plain and with a 2-, 3-, 4-byte character or a stray 0xFF in the
+/// middle or at the end of the body (fixed-size buffers, length fields and byte slicing show at
+/// their own size and alignment); plus all sequences of <= 3 \uXXXX escapes over 11 code units
+/// (surrogates in every combination) in Str, Uri and Ref display-name literals.
+pub fn long_tokens() -> Vec<Vec<u8>> {
+    let kinds: Vec<(&str, &str, &str)> = vec![
+        ("", "7", ""),
+        ("1.", "3", ""),
+        ("1e", "9", ""),
+        ("1e-", "9", ""),
+        ("-", "1_", "5"),
+        ("1", "k", ""),
+        ("1.5e3", "W", ""),
+        ("@", "a", ""),
+        ("@a \"", "x", "\""),
+        ("^", "a", ""),
+        ("\"", "x", "\""),
+        ("\"", "\\n", "\""),
+        ("\"", "\\u00e9", "\""),
+        ("`", "x", "`"),
+        ("`", "\\:", "`"),
+        ("T", "y", "(\"x\")"),
+        ("Bin(\"", "z", "\")"),
+        ("2021-01-01T00:00:00Z N", "y", ""),
+        ("2021-01-01T00:00:00-05:00 N", "y", ""),
+        ("2021-01-01T00:00:00.", "1", "Z"),
+        ("", "2", "-01-01"),
+        ("12:00:00.", "1", ""),
+        ("C(", "1", ",2)"),
+        ("C(1,", "2", ")"),
+    ];
+    let lens: Vec<usize> = (1..=72).chain([100, 127, 128, 129, 255, 256, 257, 300, 1000, 4096]).collect();
+    let inject: [&[u8]; 4] = ["°".as_bytes(), "€".as_bytes(), "😀".as_bytes(), &[0xff]];
+    let mut out: Vec<Vec<u8>> = vec![];
+    for (pre, body, suf) in &kinds {
+        for &n in &lens {
+            let mk = |at: Option<(usize, &[u8])>| -> Vec<u8> {
+                let mut v = pre.as_bytes().to_vec();
+                for i in 0..n {
+                    if let Some((k, c)) = at {
+                        if i == k {
+                            v.extend_from_slice(c);
+                        }
+                    }
+                    v.extend_from_slice(body.as_bytes());
+                }
+                if let Some((k, c)) = at {
+                    if k >= n {
+                        v.extend_from_slice(c);
+                    }
+                }
+                v.extend_from_slice(suf.as_bytes());
+                v
+            };
+            out.push(mk(None));
+            if n <= 300 {
+                for c in inject {
+                    out.push(mk(Some((n, c))));
+                    out.push(mk(Some((n / 2, c))));
+                }
+            }
+        }
+    }
+    let units = ["0041", "00e9", "d83d", "d800", "dbff", "de00", "dc00", "dfff", "ffff", "0000", "2028"];
+    let mut seqs: Vec<String> = vec![];
+    for a in units {
+        seqs.push(format!("\\u{a}"));
+        for b in units {
+            seqs.push(format!("\\u{a}\\u{b}"));
+            for c in units {
+                seqs.push(format!("\\u{a}\\u{b}\\u{c}"));
+            }
+        }
+    }
+    for q in &seqs {
+        for tail in ["", "x"] {
+            out.push(format!("\"{q}{tail}\"").into_bytes());
+            out.push(format!("`{q}{tail}`").into_bytes());
+            out.push(format!("@r \"{q}{tail}\"").into_bytes());
+            out.push(format!("\"{}{tail}\"", q.to_uppercase().replace("\\U", "\\u")).into_bytes());
+        }
+    }
+    out
+}
 
 fn nest_depths() -> Vec<usize> {
     let mut d: Vec<usize> = (1..=256).collect();
@@ -419,6 +530,7 @@ fn jobs(tier: Tier) -> Vec<(&'static str, u64, u64)> {
         ("jmut", *t.jmut_prefix.last().unwrap(), 1 << 18),
         ("struct", t.structural.len() as u64, 1 << 12),
         ("jstruct", t.jstructural.len() as u64, 1 << 12),
+        ("long", t.long.len() as u64, 1 << 13),
         ("splice", t.splice.len() as u64, 1 << 16),
         ("nest8", nd * NEST_PATTERNS as u64, 64),
         ("nest2", nd * NEST_PATTERNS as u64, 64),
@@ -456,6 +568,7 @@ pub fn job_input(job: &str, tier: Tier, ord: u64) -> Input {
         }
         "struct" => Input::Zinc(t.structural[ord as usize].clone()),
         "jstruct" => Input::Json(t.jstructural[ord as usize].clone()),
+        "long" => Input::Zinc(t.long[ord as usize].clone()),
         "splice" => Input::Zinc(t.splice[ord as usize].clone()),
         "nest8" | "nest2" => {
             let depths = nest_depths();
@@ -649,7 +762,7 @@ pub fn child_params(job: &str) -> (u64, u64, usize) {
 
 pub fn run(tier: Tier) -> i32 {
     let mut run = Run::new("C03", tier, "fault_enumeration");
-    run.rule = "inputs: every byte string <= 2/3 over all 256 bytes, every string <= 4/5 over the 27-byte token alphabet (Zinc) and a 23-byte JSON alphabet; every prefix, substitution (by each alphabet byte), deletion, duplication and insertion at every position of grammar documents (canonical and 1-deviation spellings of one value per shape class + containers); token-boundary splices of 40 documents; structural damage (rows with 0..n+3 cells, unterminated constructs at every position, header damage; Hayson: every kind tag with every member drawn from 19 fields of right and wrong JSON types, grid parts of the wrong type); nesting depth 1..256 and 2^k(+1) up to 131072 and 10^5 for 12 nesting patterns on 8 MiB and 2 MiB stacks; reader scripts (deliver/Interrupted/error/EOF/1 byte at every read call) with <= 2 deviations (<= 4 for documents <= 12 bytes) over 41 hand-written documents (every construct with blanks, line endings, escapes, look-ahead) + 150/2000 documents spread over the grammar set. Entry points: from_str, Parser::make+parse_value, parse_grid, parse_grid_iterator (driven to the first error), serde_json from_str/from_slice for Value and 16 typed values, from_value. non-trivial = distinct input of >= 2 bytes (first 64 bytes)".into();
+    run.rule = "inputs: every byte string <= 2/3 over all 256 bytes, every string <= 4/5 over the 27-byte token alphabet (Zinc) and a 23-byte JSON alphabet; every prefix, substitution (by each alphabet byte), deletion, duplication and insertion at every position of grammar documents (canonical and 1-deviation spellings of one value per shape class + containers); token-boundary splices of 40 documents; structural damage (rows with 0..n+3 cells, unterminated constructs at every position, header damage; Hayson: every kind tag with every member drawn from 19 fields of right and wrong JSON types, grid parts of the wrong type); long tokens (24 token kinds x every body length 1..72, 100, 127..129, 255..257, 300, 1000, 4096, plain and with a 2-/3-/4-byte character or 0xFF in the middle / at the end, alone and inside list, dict, grid; long tag / column names, 1..1000 columns, 1..1000 empty cells; all sequences of <= 3 \\uXXXX escapes over 11 code units incl. every surrogate combination); nesting depth 1..256 and 2^k(+1) up to 131072 and 10^5 for 12 nesting patterns on 8 MiB and 2 MiB stacks; reader scripts (deliver/Interrupted/error/EOF/1 byte at every read call) with <= 2 deviations (<= 4 for documents <= 12 bytes) over 41 hand-written documents (every construct with blanks, line endings, escapes, look-ahead) + 150/2000 documents spread over the grammar set. Entry points: from_str, Parser::make+parse_value, parse_grid, parse_grid_iterator (driven to the first error), serde_json from_str/from_slice for Value and 16 typed values, from_value. non-trivial = distinct input of >= 2 bytes (first 64 bytes)".into();
     run.assume("a case that does not finish within 6 s is a hang (cases take microseconds); hangs and crashes are confirmed by re-running the case in a fresh single-step child");
     run.assume("each case runs in a child process: abort, stack overflow and allocation failure are observed through the exit status");
     crate::engine::quiet_panics();
